@@ -93,6 +93,7 @@ type FuncSpec struct {
 	ResultNames []string
 	Verify      bool // has a body in /repo to verify
 	Handler     string
+	LockExempt  string   // "lockexempt #label": the lock rules do not apply in this function (start-up code), listed as an assumption
 	Acquires    []string // trusted lock operations: parameter names whose mutex is acquired / released
 	Releases    []string
 }
@@ -135,7 +136,7 @@ type CallersRule struct {
 	Line    int
 }
 
-var kwRe = regexp.MustCompile(`^(requires|ensures|assume|returns|observe|ghostset|modifies|cover|loop|results|nopanic|inline|unroll|atcall|handler|intmode|reveal|acquires|releases)\b`)
+var kwRe = regexp.MustCompile(`^(requires|ensures|assume|returns|observe|ghostset|modifies|cover|loop|results|nopanic|inline|unroll|atcall|handler|intmode|reveal|acquires|releases|lockexempt)\b`)
 
 // readSpecLines extracts the //@ lines of a file ("\" continues a line).
 func readSpecLines(path string) ([]string, []int, error) {
@@ -402,6 +403,12 @@ func parseSpecFile(path string, ps *PkgSpec, trustedFile bool) error {
 				cur.Clauses = append(cur.Clauses, &Clause{Kind: KObserve, Label: f[0], Callee: strings.Join(f[1:], " "), Text: strings.TrimSpace(rest[eqi+3:]), File: path, Line: ln})
 			case "inline":
 				cur.Inline = rest
+			case "lockexempt":
+				_, label, _ := splitLabelTags(" " + rest)
+				if label == "" {
+					return fmt.Errorf("%s:%d: lockexempt needs a #label saying why", path, ln)
+				}
+				cur.LockExempt = label
 			case "acquires":
 				cur.Acquires = append(cur.Acquires, strings.Fields(rest)...)
 			case "releases":
